@@ -196,12 +196,13 @@ type Queue<T, E> = RefCell<VecDeque<ServiceResult<Result<T, E>>>>;
 
 
 IO_CALL_WRAPPER_HEAD = """
-// ---- `DispatcherInner::call_service` -----------------------------------------------------------
+// ---- `DispatcherInner::{call_service, update_timer, handle_timeout}` ----------------------------
 // The struct below is NOT repository text: it declares exactly the fields of the real
-// `DispatcherInner` that `call_service` touches (same names, model environment types). The
-// function inside the impl block IS repository text, extracted verbatim.
+// `DispatcherInner` that the three functions touch (same names, model environment types). The
+// functions inside the impl block (and the `Flags` bitflags above) ARE repository text, extracted verbatim.
 use std::task::{Context, Poll};
-use ntex_io::IoBoxed;
+use ntex_io::{Decoded, IoBoxed};
+use ntex_util::time::Seconds;
 use ntex_service::PipelineBinding;
 use ntex_util::channel::condition::Condition;
 use ntex_util::{future::Either, future::select, spawn};
@@ -216,6 +217,11 @@ where
     service: PipelineBinding<P, Request<U>>,
     state: Rc<DispatcherState<P, U>>,
     stopping: Condition,
+    flags: Flags,
+    read_remains: u32,
+    read_remains_prev: u32,
+    read_max_timeout: Seconds,
+    keepalive_timeout: Seconds,
     _marker: std::marker::PhantomData<(C, E)>,
 }
 
@@ -236,18 +242,24 @@ def gen_io_state(stage):
         txt = f.read()
     parts = [extract_item(txt, rx, what) for rx, what in IO_STATE_ITEMS]
     call_service = extract_item(txt, r"^    fn call_service\(&mut self, cx: &mut Context<'_>, item: Request<U>\)", "fn call_service")
+    flags_item = extract_item(txt, r"^bitflags::bitflags! (?=\{\n    #\[derive\(Copy, Clone, Eq, PartialEq, Debug\)\]\n    struct Flags: u8)", "bitflags Flags")
+    update_timer = extract_item(txt, r"^    fn update_timer\(&mut self, decoded: &Decoded<<U as Decoder>::Item>\)", "fn update_timer")
+    handle_timeout = extract_item(txt, r"^    fn handle_timeout\(&mut self\) -> Result<\(\), ProtocolError>", "fn handle_timeout")
     # the three type aliases are asserted to be what the header says
     for alias in ("type Request<U> = <U as Decoder>::Item;", "type Response<U> = <U as Encoder>::Item;",
                   "type Queue<T, E> = RefCell<VecDeque<ServiceResult<Result<T, E>>>>;"):
         if alias not in txt:
             raise SystemExit(f"weave: io.rs no longer declares `{alias}`")
     body = IO_STATE_HEADER + "\n\n".join(parts) + "\n"
-    body += IO_CALL_WRAPPER_HEAD + call_service + "\n}\n"
+    body += flags_item + "\n" + IO_CALL_WRAPPER_HEAD + call_service + "\n\n" + update_timer + "\n\n" + handle_timeout + "\n}\n"
     body += '\n#[cfg(kani)]\n#[path = "' + os.path.join(HARN, "h_io_state.rs") + '"]\nmod verif_io_state;\n'
     with open(os.path.join(stage, "gen_io_state.rs"), "w") as f:
         f.write(body)
     d = {what: hashlib.sha256(p.encode()).hexdigest() for (rx, what), p in zip(IO_STATE_ITEMS, parts)}
     d["fn call_service"] = hashlib.sha256(call_service.encode()).hexdigest()
+    d["bitflags Flags"] = hashlib.sha256(flags_item.encode()).hexdigest()
+    d["fn update_timer"] = hashlib.sha256(update_timer.encode()).hexdigest()
+    d["fn handle_timeout"] = hashlib.sha256(handle_timeout.encode()).hexdigest()
     return d
 
 
